@@ -199,6 +199,19 @@ def r_mink(idx, rep, rule="R-MINK", modules=None, floor=9):
             if nm:
                 names[nm] = c.func.value.id
     ok = len(cs) == 1 and len(cs[0].args) == 2 and [names.get(u(a)) for a in cs[0].args] == sf.params()[:2]
+    if not cs:
+        # the helper inlined: what is returned must be (s1 - s2, s1, s2) with s_k the support point of collider k — on the returned value with
+        # one-expression helpers and temporaries read through
+        from ..core.inline import expand_helpers as _exp
+        from ..core.astutil import inline_temps_in as _inl
+        rets_ = [s_ for s_ in iter_stmts(sf.node.body) if isinstance(s_, ast.Return) and s_.value is not None]
+        if len(rets_) == 1:
+            v_ = _inl(sf.node, _exp(idx, sf.module, rets_[0].value))
+            if isinstance(v_, ast.Tuple) and len(v_.elts) == 3 and isinstance(v_.elts[0], ast.BinOp) and isinstance(v_.elts[0].op, ast.Sub):
+                def recv(e):
+                    return e.func.value.id if isinstance(e, ast.Call) and isinstance(e.func, ast.Attribute) and e.func.attr == "support_function" and isinstance(e.func.value, ast.Name) else None
+                p1, p2 = sf.params()[:2]
+                ok = recv(v_.elts[0].left) == p1 and recv(v_.elts[0].right) == p2 and recv(v_.elts[1]) == p1 and recv(v_.elts[2]) == p2
     rep.check(ok, rule, sf.key + "|make_support_point(first, second)", sf.where,
               "minkowski.support_function must pass (support of collider1, support of collider2) in that order")
 
